@@ -668,7 +668,8 @@ family("num", [
     ("real2", [("int", R(2)), ("float", R(2.0)), ("frac", R(Fraction(2))), ("pair", R((4, 2))), ("toreal", ("ToReal", I(2)))]),
     ("half", [("float", R(0.5)), ("frac", R(HALF)), ("pair", R((1, 2))), ("pair24", R((2, 4)))]),
     ("tenth", [("frac", R(Fraction(1, 10))), ("pair", R((1, 10)))]),
-    ("tenth-float", [("float", R(0.1))]),
+    # the float 0.1 denotes its exact binary value; that Fraction compares (and hashes) equal to the float
+    ("tenth-float", [("float", R(0.1)), ("frac-exact", R(Fraction(0.1)))]),
     ("int2", [("int", I(2))]),
     ("bv1_2", [("int", ("BV", 1, 2)), ("str", ("BV", "01")), ("hash", ("BV", "#b01")), ("strw", ("BV", "01", 2)),
                ("sbv", ("SBV", 1, 2)), ("one", ("BVOne", 2))]),
